@@ -41,7 +41,7 @@ struct pmc_exec_rec
     int overflow;
     uint64_t hash;
     uint64_t outcome_hash;
-    char outcome_str[512];
+    char outcome_str[4096];
     long ops, points, switches, focus_switches, idle_rounds;
     int threads;
     int real_alts;                  // recorded choice points with n > 1
